@@ -27,8 +27,8 @@ GenNext ==
      \/ \E p \in RandomSubset(1, 1..n) : \E seq \in RandomSubset(1, {q \in TxSeqs : q # <<>>}) : MkBadBlock(p, seq)
      \/ \E b \in {c \in 2..n : Parent(c) = ptr} : Play(b, "*")
      \/ \E b \in RandomSubset(1, 2..n) : Play(b, "*")
-     \/ (pool # {} /\ Mine(GoodOrder(Packable)))
-     \/ \E b \in RandomSubset(1, {0}) : Mine(GoodOrder(Packable))
+     \/ (pool # {} /\ Mine(PrefixFits(GoodOrder(Packable))))
+     \/ \E b \in RandomSubset(1, {0}) : Mine(PrefixFits(GoodOrder(Packable)))
      \/ \E d \in 1..n : Walk(d, FALSE, {"*"}, <<>>)
      \/ \E d \in RandomSubset(1, 1..n) : Walk(d, TRUE, {"*"}, <<>>)      \* pruning walk
      \/ Restart
@@ -38,9 +38,9 @@ MinerNext ==
   /\ Len(hist) < MaxOps
   /\ \/ \E t \in {t \in Txs : t \notin pool /\ Valid(St, t, LHeight)} : Submit(t, "*")
      \/ \E t \in {t \in Txs : t \notin pool /\ Valid(St, t, LHeight)} : Submit(t, "*")
-     \/ (pool # {} /\ Mine(GoodOrder(Packable)))
-     \/ (Cardinality(pool) >= 3 /\ Mine(GoodOrder(Packable)))
-     \/ \E b \in RandomSubset(1, {0}) : Mine(GoodOrder(Packable))
+     \/ (pool # {} /\ Mine(PrefixFits(GoodOrder(Packable))))
+     \/ (Cardinality(pool) >= 3 /\ Mine(PrefixFits(GoodOrder(Packable))))
+     \/ \E b \in RandomSubset(1, {0}) : Mine(PrefixFits(GoodOrder(Packable)))
      \/ \E p \in RandomSubset(1, 1..n) : \E seq \in RandomSubset(1, ValidSeqs(p)) : n < MaxBlocks /\ NewBlock(p, seq)
      \/ \E d \in RandomSubset(1, 1..n) : Walk(d, FALSE, {"*"}, <<>>)
      \/ \E d \in {ltip} : ptr # ltip /\ Walk(d, FALSE, {"*"}, <<>>)
